@@ -453,6 +453,13 @@ func chain(k int) []Op {
 	ops = append(ops, p1("Stat", "l0"), p1("ReadFile", "l0"), open("l0", fl(2)), Op{K: "Chmod", P: "l0", Perm: 0o600},
 		p1("ReadDir", "m0"), mkdirall("m0/x"), wfile("m0/y", "y"), p1("ReadDir", "d"), p1("Lstat", "l0"), p1("Readlink", "l0"),
 		p1("Stat", "l1"), p1("ReadFile", "l1"), p1("Stat", "m1/y"))
+	// every operation that resolves through getNode, and openFile, on the chain of exactly k links
+	// (file chain l0, directory chain m0); judged by the reference, whose budget is the generated maxLinks
+	ops = append(ops, Op{K: "Chown", P: "l0", Uid: 12, Gid: 34}, Op{K: "Chtimes", P: "l0", T: 1000000},
+		Op{K: "SetXattr", P: "l0", A: "user.a", B: []byte("1")}, Op{K: "GetXattr", P: "l0", A: "user.a"}, p1("ListXattrs", "l0"),
+		p1("Stat", "f"), Op{K: "GetXattr", P: "f", A: "user.a"}, p1("Lstat", "m0"), p1("Stat", "m0/y"), p1("ReadFile", "m0/y"), open("m0/y", fl(0)),
+		Op{K: "Chmod", P: "m0", Perm: 0o700}, Op{K: "Chown", P: "m0", Uid: 1, Gid: 2}, Op{K: "Chtimes", P: "m0", T: 1000001},
+		Op{K: "SetXattr", P: "m0", A: "user.d", B: []byte("2")}, Op{K: "GetXattr", P: "d", A: "user.d"}, p1("Stat", "d"))
 	return ops
 }
 
